@@ -46,9 +46,22 @@ fn main() {
                     continue; // header record
                 }
                 let (evals, nontrivial) = res.as_ref().map(|o| (o.evals, o.nontrivial)).unwrap_or((1, 0));
+                // row operations depend on a header record; give every mismatch a self-contained
+                // equivalent ("replay_as") that bin/check --replay can run on its own
                 let ms = ops::compare(&st, &op, &case, &obs)
                     .into_iter()
-                    .map(|m| (m.tag, json!({"op": op, "in": case["in"], "detail": m.detail})))
+                    .map(|m| {
+                        let mut c = json!({"op": op, "in": case["in"], "detail": m.detail});
+                        if op == "patrow" {
+                            let mut ns: Vec<Value> = st.names.iter().map(|n| pkgsrc_conform::util::codes(n)).collect();
+                            if let Some(xs) = case["in"]["xs"].as_array() { ns.extend(xs.iter().cloned()); }
+                            c["replay_as"] = json!({"op": "patmatch", "in": {"p": case["in"]["p"], "ns": ns}});
+                        } else if op == "verrow" {
+                            c["replay_as"] = json!({"op": "vercmp", "in": {"a": pkgsrc_conform::util::codes(m.detail["a"].as_str().unwrap_or("")),
+                                                                             "b": pkgsrc_conform::util::codes(m.detail["b"].as_str().unwrap_or(""))}});
+                        }
+                        (m.tag, c)
+                    })
                     .collect();
                 n += 1;
                 let sample = if n % 997 == 1 { Some(json!({"op": op, "in": case["in"], "observed": obs})) } else { None };
